@@ -83,8 +83,17 @@ def go_req(s):
         s["kind"] + ("/" + s["flavour"] if s.get("flavour") else ""), s["k"], s["p"], " ".join(s["outs"]))
 
 
+EXOTIC_IS = ["canceled", "deadline", "deadline", "canceled", "retries", "waitdl", "retries", "canceled"]   # the sentinel exotic failure value k is or wraps
+
+
+def plain(outs):
+    """exotic failure values (R<k>/F<k>: context errors, wrapped ones, the package's sentinels, an inner *FError) are ordinary
+    recoverable / unrecoverable failures for the model and for the property: only the bool the operation returns decides"""
+    return [("r" if o[0] == "R" else "f") + o[1:] if o[0] in "RF" else o for o in outs]
+
+
 def model_req(s):
-    outs, kind, k = expand(s["outs"]), s["kind"], s["k"]
+    outs, kind, k = plain(expand(s["outs"])), s["kind"], s["k"]
     if s["api"] == "retry":              # Retry marks every error recoverable
         outs = [("r" + o[1:]) if o[0] == "f" else o for o in outs]
     pre = {"precancel": "C", "predeadline": "D"}.get(kind, "-")
@@ -109,7 +118,9 @@ def model_req(s):
 def run_spec(s, ans):
     """the property, evaluated on what Go did (independently of the Coq model).
     returns list of (signature, text)"""
-    outs, kind, k, retries, keep = expand(s["outs"]), s["kind"], s["k"], s["retries"], s["keep"]
+    raw = expand(s["outs"])
+    exotic = any(o[0] in "RF" for o in raw)
+    outs, kind, k, retries, keep = plain(raw), s["kind"], s["k"], s["retries"], s["keep"]
     if s["api"] == "retry":
         outs = [("r" + o[1:]) if o[0] == "f" else o for o in outs]
     f = ans.split()
@@ -173,6 +184,23 @@ def run_spec(s, ans):
             bad.append(("runs-count", "the operation ran %d times, expected %d" % (calls, exp_calls)))
     if (status == "nil") != (exp_status == "nil") and not bad:
         bad.append(("success-mismatch", "returned %s, last run %s" % (status, "succeeded" if exp_status == "nil" else "failed")))
+    if exotic and status == "err" and exp_status == "err" and not bad:
+        # the failure VALUES are context errors / sentinels themselves, so the errors.Is vector says little; judged: the main
+        # error is the unrecoverable failure itself when that is why it stopped, and the number of errors kept
+        bits = f[3]
+        if reason and reason[0] == "u" and raw[calls - 1][0] == "F":
+            # the unrecoverable failure is why it stopped: the failure returned must match it (errors.Is), i.e. the sentinel it is or wraps
+            want = EXOTIC_IS[int(raw[calls - 1][1:]) % 8]
+            if bits[TARGETS.index(want)] != "1":
+                bad.append(("reason-not-matched:user", "stopped on an unrecoverable failure that is/wraps %s but errors.Is(failure, %s) is false" % (want, want)))
+        elif reason and reason[0] == "u":
+            if bits[TARGETS.index(reason)] != "1":
+                bad.append(("reason-not-matched:user", "errors.Is(failure, %s) is false although that is why it stopped" % reason))
+        elif reason == "retries" and bits[TARGETS.index("retries")] != "1":
+            bad.append(("reason-not-matched:retries", "retries exhausted but errors.Is(failure, ErrRetriesExceeded) is false"))
+        if int(f[4]) > max(1, keep):
+            bad.append(("kept-too-many", "%d errors retained, KeepErrs=%d" % (int(f[4]), keep)))
+        return bad
     if status == "err" and exp_status == "err" and not bad:
         bits = f[3]
         # a deadline scenario may end with either of the two reasons the property names for it
@@ -187,7 +215,7 @@ def run_spec(s, ans):
     return bad
 
 
-def same_run(go, model):
+def same_run(go, model, exotic=False):
     g, m = go.split(), model.split(" ;")[0].split()
     if go in ("skipped", "hang", "panic"):
         return True
@@ -195,6 +223,8 @@ def same_run(go, model):
         return False
     if g[1] in ("nil", "more"):
         return True
+    if exotic:                       # failure values differ by construction: number of runs, outcome and number of kept errors
+        return g[4] == m[4]
     return g[2] == m[2] and g[3][:13] == m[3][:13] and g[4] == m[4] and sorted(g[5:]) == sorted(m[5:])
 
 
@@ -285,6 +315,19 @@ def build_cases(tier, seed, rnd):
             cases.append(scn("ctx", r, 1, with_ids(t, "distinct"), backoff=0, mx=0))
             cases.append(scn("ctx", r, 1, with_ids(t, "distinct"), backoff=-5, mx=-7, jit=1))
             cases.append(scn("ctx", r, 1, with_ids(t, "distinct"), backoff=3, mx=50, jit=1))
+    # --- failure VALUES that mean something to the retry package (errors of other contexts, bare and wrapped, its own sentinels,
+    #     the *FError of an inner retry): recoverable ones must be re-run up to the limit, unrecoverable ones end the call and are its reason
+    for x in range(8):
+        for r in (-1, 1, 2, 4, 7):
+            for kp in (0, 2):
+                cases.append(scn("ctx", r, kp, ["R%d" % x, "R%d" % x, "R%d" % ((x + 3) % 8), "o"]))
+                cases.append(scn("ctx", r, kp, ["R%d" % x] * 9))
+                cases.append(scn("ctx", r, kp, ["r1", "R%d" % x, "F%d" % x, "o"]))
+                cases.append(scn("ctx", r, kp, ["F%d" % x, "o"]))
+            cases.append(scn("some", r, 2, ["R%d" % x, "R%d" % x, "o"]))
+            cases.append(scn("retry", r, 2, ["R%d" % x, "R%d" % x, "o"]))
+        for fl in CANCEL_FLAVOURS[:2]:
+            cases.append(scn("ctx", 5, 2, ["R%d" % x, "R%d" % x, "R%d" % x, "o"], kind="inF", k=2, backoff=1, mx=1, flavour=fl))
     # --- context already ended on entry, over the kinds of context Go offers
     for kind, flavours in (("precancel", CANCEL_FLAVOURS), ("predeadline", DEADLINE_FLAVOURS)):
         for fl in flavours:
@@ -472,7 +515,7 @@ def _run(tier, seed, replay=None):
 
     # timed scenarios that disagree are repeated alone, slower, before they are judged
     def disagree(it, g, m):
-        return it["type"] == "run" and (not same_run(g, m) or run_spec(it, g))
+        return it["type"] == "run" and (not same_run(g, m, any(o[0] in "RF" for o in it["outs"])) or run_spec(it, g))
     redo = [i for i, it in enumerate(items) if it["type"] == "run" and (it.get("pool") or it["kind"] == "dl") and disagree(it, go[i], model[i])]
     retried = 0
     for attempt in range(2):
@@ -533,7 +576,7 @@ def _run(tier, seed, replay=None):
                 res.violation(sig, "%s(retries=%d, KeepErrs=%d, outcomes=%s, ctx=%s@%d): %s; Go: %s" % (
                     {"ctx": "RetryWithCtx", "some": "RetrySome", "retry": "Retry"}[it["api"]], it["retries"], it["keep"],
                     " ".join(it["outs"]), it["kind"] + ("/" + it["flavour"] if it.get("flavour") else ""), it["k"], text, g), rp)
-            if not sp and not same_run(g, m):
+            if not sp and not same_run(g, m, any(o[0] in "RF" for o in it["outs"])):
                 res.violation("run-model-differs", "RetryWithCtx(retries=%d, KeepErrs=%d, outcomes=%s, ctx=%s@%d): Go %s, model %s" % (
                     it["retries"], it["keep"], " ".join(it["outs"]), it["kind"] + ("/" + it["flavour"] if it.get("flavour") else ""), it["k"], g, m), rp, False)
             if len(it["outs"]) >= 2 and it["outs"][0] != "o":
